@@ -72,8 +72,39 @@ theorem transform_on_unchecked {P E T D : Type} (chk : P → Except E Unit) (tr 
   unfold transformUnchecked checkRef
   cases chk p <;> simp
 
+/-- hand-written `TSneParams::transform` (`Array2` and `DatasetBase` forms): `self.check_ref()?.transform(x)` -/
+theorem try_transform_on_unchecked {P E E' T D : Type} (chk : P → Except E Unit) (conv : E → E')
+    (tr : P → D → Except E' T) (p : P) (x : D) :
+    (∀ e, chk p = .error e → tryTransformUnchecked chk conv tr p x = .error (conv e)) ∧
+    (chk p = .ok () → tryTransformUnchecked chk conv tr p x = tr p x) := by
+  unfold tryTransformUnchecked checkRef
+  cases chk p <;> simp
+
+/-- hand-written `CountVectorizerParams::{fit, fit_files, fit_vocabulary}`: `self.check_ref().and_then(|p| p.fit(x))` -/
+theorem and_then_on_unchecked {P E M D : Type} (chk : P → Except E Unit) (fit : P → D → Except E M) (p : P) (d : D) :
+    (∀ e, chk p = .error e → andThenUnchecked chk fit p d = .error e) ∧
+    (chk p = .ok () → andThenUnchecked chk fit p d = fit p d) := by
+  unfold andThenUnchecked checkRef
+  cases chk p <;> simp [Except.bind]
+
+/-- `TfIdfVectorizer::{fit, fit_files, fit_vocabulary}` (an unchecked count-vectoriser builder inside a wrapper):
+the checking error comes back unchanged, a valid builder gives the wrapped result of the checked form -/
+theorem wrap_on_unchecked {P E M M' D : Type} (chk : P → Except E Unit) (fit : P → D → Except E M) (wrap : M → M')
+    (p : P) (d : D) :
+    (∀ e, chk p = .error e → wrapUnchecked chk fit wrap p d = .error e) ∧
+    (chk p = .ok () → wrapUnchecked chk fit wrap p d = (fit p d).map wrap) := by
+  unfold wrapUnchecked andThenUnchecked checkRef
+  cases chk p <;> simp [Except.bind]
+  cases fit p d <;> rfl
+
 example : fitUnchecked (fun n : Nat => if n = 0 then .error "zero" else .ok ()) id
     (fun n (_ : Unit) => (.ok (n + 1) : Except String Nat)) 0 () = .error "zero" := rfl
+example : andThenUnchecked (fun n : Nat => if n = 0 then .error "zero" else .ok ())
+    (fun n (_ : Unit) => (.ok (n + 1) : Except String Nat)) 0 () = .error "zero" := rfl
+example : wrapUnchecked (fun n : Nat => if n = 0 then .error "zero" else .ok ())
+    (fun n (_ : Unit) => (.ok (n + 1) : Except String Nat)) (fun m => (m, m)) 4 () = .ok (5, 5) := rfl
+example : tryTransformUnchecked (fun n : Nat => if n = 0 then .error "zero" else .ok ()) String.length
+    (fun n (_ : Unit) => (.ok (n + 1) : Except Nat Nat)) 0 () = .error 4 := rfl
 example : fitUnchecked (fun n : Nat => if n = 0 then .error "zero" else .ok ()) id
     (fun n (_ : Unit) => (.ok (n + 1) : Except String Nat)) 4 () = .ok 5 := rfl
 
@@ -90,6 +121,38 @@ theorem check_error_is_first (gs : List (Option String)) (t : String) :
   firstErr_error_iff gs t
 
 example : firstErr [none, some "B", some "C"] = .error "B" := rfl
+
+/-- order-free reading (the statement does not say WHICH error a doubly-invalid builder gets): the error returned
+is the tag of some guard that fires, and a chain in which a guard fires does return an error -/
+theorem check_error_is_firing_guard (gs : List (Option String)) :
+    (∀ t, firstErr gs = .error t → some t ∈ gs) ∧ ((∃ t, some t ∈ gs) → ∃ u, firstErr gs = .error u) :=
+  ⟨firstErr_error_mem gs, fun ⟨t, h⟩ => firstErr_error_of_mem gs t h⟩
+
+example : some "C" ∈ [none, some "B", some "C"] ∧ firstErr [none, some "B", some "C"] ≠ .error "C" := by decide
+
+/-! ## The setters of `SvmParams` (call chains `Svm::params().s1(..).s2(..)…`) -/
+
+/-- after ANY chain of setter calls exactly one of `c` / `nu` is set: the arm
+`_ => panic!("Set either C value or Nu value")` of the classification and regression `fit`s is unreachable -/
+theorem svm_setters_exactly_one {α : Type} (k : SvmConsts α) (ops : List (SvmSet α)) :
+    (svmRun k ops).c.isSome = !(svmRun k ops).nu.isSome :=
+  svmFold_exactly_one k ops (svmNew k) rfl
+
+/-- a weight setter overrides whatever the chain before it left in `c` and `nu` (a stale, possibly invalid value
+never survives `pos_neg_weights / nu_weight / c_eps / nu_eps / c_svr / nu_svr`) -/
+theorem svm_weight_setter_overrides {α : Type} (k : SvmConsts α) (s s' : SvmState α) (w : SvmSet α)
+    (hw : w.isWeight = true) :
+    (w.apply k s).c = (w.apply k s').c ∧ (w.apply k s).nu = (w.apply k s').nu := by
+  cases w <;> simp_all [SvmSet.apply, SvmSet.isWeight]
+
+/-- `.eps(x)` leaves the weights alone -/
+theorem svm_eps_keeps_weights {α : Type} (k : SvmConsts α) (s : SvmState α) (x : α) :
+    ((SvmSet.eps x).apply k s).c = s.c ∧ ((SvmSet.eps x).apply k s).nu = s.nu ∧ ((SvmSet.eps x).apply k s).eps = x := by
+  simp [SvmSet.apply]
+
+example : (svmRun (⟨1, 10, 7⟩ : SvmConsts Nat) [.nuWeight 0, .cSvr 3 none, .eps 2]).c = some (3, 10) ∧
+    (svmRun (⟨1, 10, 7⟩ : SvmConsts Nat) [.nuWeight 0, .cSvr 3 none, .eps 2]).nu = none ∧
+    (svmRun (⟨1, 10, 7⟩ : SvmConsts Nat) [.nuWeight 0, .cSvr 3 none, .eps 2]).eps = 2 := by decide
 
 /-! ## Per builder: a finite parameter set passes the (translated) check iff it is in the documented range -/
 
@@ -170,6 +233,25 @@ theorem ElasticNet.check_ok_iff (p : Gen.C04.ElasticNet.Params) (h : Ranges.Elas
 example : Ranges.ElasticNet.Finite { penalty := .fin (1/10), l1_ratio := .fin 1, tolerance := .fin 0 } ∧ Ranges.ElasticNet.InRange { penalty := .fin (1/10), l1_ratio := .fin 1, tolerance := .fin 0 } ∧ Gen.C04.ElasticNet.check { penalty := .fin (1/10), l1_ratio := .fin 1, tolerance := .fin 0 } = .ok () := by c04_eval ElasticNet
 example : Ranges.ElasticNet.Finite { penalty := .fin (1/10), l1_ratio := .fin (3/2), tolerance := .fin 0 } ∧ ¬ Ranges.ElasticNet.InRange { penalty := .fin (1/10), l1_ratio := .fin (3/2), tolerance := .fin 0 } := by c04_eval ElasticNet
 
+/- FULL statement for the elastic net (false of model and code, finding C04-elasticnet-max-iterations-zero, open):
+     Finite p → (check p = .ok () ↔ Ranges.ElasticNet.DocRange p max_iterations)
+   `ElasticNet.check_ok_iff` above is the part that holds (the three guarded fields); what is missing is a guard
+   on `max_iterations` (documented `[1, inf)`): the guard chain cannot depend on a field it does not read. -/
+/-- witness of the failure: finite parameters outside the documented range that pass the translated check -/
+theorem ElasticNet.max_iterations_unguarded :
+    ∃ (p : Gen.C04.ElasticNet.Params) (mi : Nat), Ranges.ElasticNet.Finite p ∧
+      Gen.C04.ElasticNet.check p = .ok () ∧ ¬ Ranges.ElasticNet.DocRange p mi :=
+  ⟨{ penalty := .fin 1, l1_ratio := .fin (1/2), tolerance := .fin (1/10000) }, 0, by
+    simp [Ranges.ElasticNet.Finite, Ranges.ElasticNet.DocRange, Gen.C04.ElasticNet.check, Gen.C04.ElasticNet.guards,
+      XF.inClosed, XF.Finite] <;> norm_num [XF.zero, XF.one]⟩
+/-- with the extra hypothesis that excludes the defect the full documented range is characterised -/
+theorem ElasticNet.check_ok_iff_doc_partial (p : Gen.C04.ElasticNet.Params) (h : Ranges.ElasticNet.Finite p)
+    (mi : Nat) (hmi : 1 ≤ mi) :
+    Gen.C04.ElasticNet.check p = .ok () ↔ Ranges.ElasticNet.DocRange p mi := by
+  rw [ElasticNet.check_ok_iff p h]; simp [Ranges.ElasticNet.DocRange, hmi]
+example : Ranges.ElasticNet.DocRange { penalty := .fin 1, l1_ratio := .fin (1/2), tolerance := .fin (1/10000) } 1000 := by
+  simp [Ranges.ElasticNet.DocRange, Ranges.ElasticNet.InRange]; norm_num
+
 /-- Tweedie GLM -/
 theorem Tweedie.check_ok_iff (p : Gen.C04.Tweedie.Params) (h : Ranges.Tweedie.Finite p) :
     Gen.C04.Tweedie.check p = .ok () ↔ Ranges.Tweedie.InRange p := by
@@ -181,16 +263,24 @@ theorem Tweedie.check_ok_iff (p : Gen.C04.Tweedie.Params) (h : Ranges.Tweedie.Fi
 example : Ranges.Tweedie.Finite { alpha := .fin 0, power := .fin 1 } ∧ Ranges.Tweedie.InRange { alpha := .fin 0, power := .fin 1 } ∧ Gen.C04.Tweedie.check { alpha := .fin 0, power := .fin 1 } = .ok () := by c04_eval Tweedie
 example : Ranges.Tweedie.Finite { alpha := .fin 0, power := .fin (1/2) } ∧ ¬ Ranges.Tweedie.InRange { alpha := .fin 0, power := .fin (1/2) } := by c04_eval Tweedie
 
-/-- decision tree -/
+/-- decision tree, for both float carriers (`F::epsilon()` is 2^-52 at f64 and 2^-23 at f32) -/
 theorem DecisionTree.check_ok_iff (p : Gen.C04.DecisionTree.Params) (h : Ranges.DecisionTree.Finite p) :
     Gen.C04.DecisionTree.check p = .ok () ↔ Ranges.DecisionTree.InRange p := by
-  obtain ⟨min_impurity_decrease⟩ := p
+  obtain ⟨min_impurity_decrease, carrier⟩ := p
   simp only [Ranges.DecisionTree.Finite, XF.finite_iff] at h
   obtain ⟨q0, rfl⟩ := h
-  simp [Gen.C04.DecisionTree.check, Gen.C04.DecisionTree.guards, Ranges.DecisionTree.InRange, Ranges.pos, Ranges.nonneg, Ranges.unit01, XF.inClosed, XF.gt, XF.ge, XF.eps64]
-  try grind
-example : Ranges.DecisionTree.Finite { min_impurity_decrease := .fin (1/100000) } ∧ Ranges.DecisionTree.InRange { min_impurity_decrease := .fin (1/100000) } ∧ Gen.C04.DecisionTree.check { min_impurity_decrease := .fin (1/100000) } = .ok () := by c04_eval DecisionTree
-example : Ranges.DecisionTree.Finite { min_impurity_decrease := .fin 0 } ∧ ¬ Ranges.DecisionTree.InRange { min_impurity_decrease := .fin 0 } := by c04_eval DecisionTree
+  cases carrier <;>
+    simp [Gen.C04.DecisionTree.check, Gen.C04.DecisionTree.guards, Ranges.DecisionTree.InRange, Ranges.DecisionTree.epsQ,
+      XF.epsOf, XF.eps64, XF.eps32]
+example : Ranges.DecisionTree.Finite { min_impurity_decrease := .fin (1/100000), carrier := .f64 } ∧ Ranges.DecisionTree.InRange { min_impurity_decrease := .fin (1/100000), carrier := .f64 } ∧ Gen.C04.DecisionTree.check { min_impurity_decrease := .fin (1/100000), carrier := .f64 } = .ok () := by
+  simp [Ranges.DecisionTree.Finite, Ranges.DecisionTree.InRange, Ranges.DecisionTree.epsQ, Gen.C04.DecisionTree.check, Gen.C04.DecisionTree.guards, XF.epsOf, XF.eps64, XF.Finite] <;> norm_num
+/-- the carrier matters: 1e-9-ish values pass at f64 and are rejected at f32 -/
+example : Ranges.DecisionTree.InRange { min_impurity_decrease := .fin (1/1000000000), carrier := .f64 } ∧
+    ¬ Ranges.DecisionTree.InRange { min_impurity_decrease := .fin (1/1000000000), carrier := .f32 } ∧
+    Gen.C04.DecisionTree.check { min_impurity_decrease := .fin (1/1000000000), carrier := .f32 } = .error "Parameters:Minimum_impurity_decreas" := by
+  simp [Ranges.DecisionTree.InRange, Ranges.DecisionTree.epsQ, Gen.C04.DecisionTree.check, Gen.C04.DecisionTree.guards, XF.epsOf, XF.eps32] <;> norm_num
+example : Ranges.DecisionTree.Finite { min_impurity_decrease := .fin 0, carrier := .f64 } ∧ ¬ Ranges.DecisionTree.InRange { min_impurity_decrease := .fin 0, carrier := .f64 } := by
+  simp [Ranges.DecisionTree.Finite, Ranges.DecisionTree.InRange, Ranges.DecisionTree.epsQ, XF.Finite]
 
 /-- Gaussian naive Bayes -/
 theorem GaussianNb.check_ok_iff (p : Gen.C04.GaussianNb.Params) (h : Ranges.GaussianNb.Finite p) :
@@ -372,35 +462,39 @@ example : Ranges.CountVectorizer.Finite { n_gram_range := (1, 2), document_frequ
 example : Gen.C04.CountVectorizer.check { n_gram_range := (1, 1), document_frequency := (.fin (1/2), .fin (3/2)), split_regex_ok := true }
     = .error "InvalidDocumentFrequencies" := by c04_eval CountVectorizer
 
-/-! ## Which error, concretely (instances of `check_error_is_first` read off the chain) -/
+/-! ## Which error, concretely — order-free: the error names a documented bound the parameters violate
 
-/-- K-means: the four errors in chain order -/
-theorem KMeans.check_error (p : Gen.C04.KMeans.Params) (h : Ranges.KMeans.Finite p) :
-    (Gen.C04.KMeans.check p = .error "NClusters" ↔ p.n_clusters = 0) ∧
-    (Gen.C04.KMeans.check p = .error "NRuns" ↔ p.n_clusters ≠ 0 ∧ p.n_runs = 0) ∧
-    (Gen.C04.KMeans.check p = .error "Tolerance" ↔ p.n_clusters ≠ 0 ∧ p.n_runs ≠ 0 ∧ ¬ Ranges.pos p.tolerance) ∧
-    (Gen.C04.KMeans.check p = .error "MaxIterations" ↔
-      p.n_clusters ≠ 0 ∧ p.n_runs ≠ 0 ∧ Ranges.pos p.tolerance ∧ p.max_n_iterations = 0) := by
+(The statement promises "exactly the checking error", not which one a doubly-invalid builder gets; these theorems
+survive a reordering of the guards.) -/
+
+/-- K-means: each of the four errors names a bound that is violated -/
+theorem KMeans.check_error_sound (p : Gen.C04.KMeans.Params) (h : Ranges.KMeans.Finite p) (t : String)
+    (he : Gen.C04.KMeans.check p = .error t) :
+    (t = "NClusters" ∧ p.n_clusters = 0) ∨ (t = "NRuns" ∧ p.n_runs = 0) ∨
+    (t = "Tolerance" ∧ ¬ Ranges.pos p.tolerance) ∨ (t = "MaxIterations" ∧ p.max_n_iterations = 0) := by
   obtain ⟨n_clusters, n_runs, tolerance, max_n_iterations⟩ := p
   simp only [Ranges.KMeans.Finite, XF.finite_iff] at h
   obtain ⟨q, rfl⟩ := h
-  simp only [Gen.C04.KMeans.check, Gen.C04.KMeans.guards]
-  by_cases h1 : n_clusters = 0 <;> by_cases h2 : n_runs = 0 <;> by_cases h3 : q ≤ 0 <;>
-    by_cases h4 : max_n_iterations = 0 <;> simp [h1, h2, h3, h4, Ranges.pos] <;> try grind
+  have hm := firstErr_error_mem _ _ he
+  simp [Gen.C04.KMeans.guards, Ranges.pos] at hm ⊢
+  grind
 example : Gen.C04.KMeans.check { n_clusters := 2, n_runs := 0, tolerance := .fin 0, max_n_iterations := 0 } = .error "NRuns" := by c04_eval KMeans
 
-/-- count vectoriser: the document-frequency error is returned exactly when the n-gram range is fine and a
-frequency leaves `[0, 1]` -/
-theorem CountVectorizer.check_error_docfreq (p : Gen.C04.CountVectorizer.Params) (h : Ranges.CountVectorizer.Finite p) :
-    Gen.C04.CountVectorizer.check p = .error "InvalidDocumentFrequencies" ↔
-      (1 ≤ p.n_gram_range.1 ∧ 1 ≤ p.n_gram_range.2 ∧ p.n_gram_range.1 ≤ p.n_gram_range.2) ∧
-      ¬ (Ranges.unit01 p.document_frequency.1 ∧ Ranges.unit01 p.document_frequency.2) := by
+/-- count vectoriser: the three hyper-parameter errors name the violated bound -/
+theorem CountVectorizer.check_error_sound (p : Gen.C04.CountVectorizer.Params) (h : Ranges.CountVectorizer.Finite p) (t : String)
+    (he : Gen.C04.CountVectorizer.check p = .error t) :
+    (t = "InvalidNGramBoundaries" ∧ (p.n_gram_range.1 = 0 ∨ p.n_gram_range.2 = 0)) ∨
+    (t = "FlippedNGramBoundaries" ∧ p.n_gram_range.2 < p.n_gram_range.1) ∨
+    (t = "InvalidDocumentFrequencies" ∧ ¬ (Ranges.unit01 p.document_frequency.1 ∧ Ranges.unit01 p.document_frequency.2)) ∨
+    (t = "FlippedDocumentFrequencies" ∧
+      ¬ p.document_frequency.1.Sat (fun a => p.document_frequency.2.Sat (fun b => a ≤ b))) ∨
+    (t = "RegexError" ∧ p.split_regex_ok = false) := by
   obtain ⟨⟨a, b⟩, ⟨lo, hi⟩, rok⟩ := p
   simp only [Ranges.CountVectorizer.Finite, XF.finite_iff] at h
   obtain ⟨⟨l, rfl⟩, ⟨u, rfl⟩⟩ := h
-  simp only [Gen.C04.CountVectorizer.check, Gen.C04.CountVectorizer.guards]
-  by_cases h1 : a = 0 <;> by_cases h2 : b = 0 <;> by_cases h3 : a > b <;>
-    simp [h1, h2, h3, Ranges.unit01, XF.gt, XF.lt, XF.le] <;> try grind
+  have hm := firstErr_error_mem _ _ he
+  simp [Gen.C04.CountVectorizer.guards, Ranges.unit01, XF.gt, XF.lt, XF.le] at hm ⊢
+  grind
 example : Ranges.CountVectorizer.Finite { n_gram_range := (1, 1), document_frequency := (.fin 0, .fin 2), split_regex_ok := true } := by c04_eval CountVectorizer
 
 end LinfaSpec.Props.C04
